@@ -246,6 +246,36 @@ func Run(r *core.Run) {
 			r.Class("wrong-prefix")
 		}
 	}
+	// (vi) other spellings of the right hash: the hash of a value is one string; a string that merely decodes to the same
+	// bytes (unused low bits of the last character set, line breaks the decoder skips) is not that hash
+	const b64alpha = "ABCDEFGHIJKLMNOPQRSTUVWXYZabcdefghijklmnopqrstuvwxyz0123456789-_"
+	for i, v := range vs {
+		if i%11 != 0 {
+			continue
+		}
+		for ci := range codes {
+			h := hashes[i][ci]
+			var aliases []string
+			for _, ch := range b64alpha {
+				if a := h[:len(h)-1] + string(ch); a != h {
+					aliases = append(aliases, a)
+				}
+			}
+			aliases = append(aliases, h+"\n", h+"\r\n", h[:10]+"\n"+h[10:], "\n"+h, h[:len(h)-2]+"\r"+h[len(h)-2:])
+			for ai, a := range aliases {
+				v, a := v, a
+				id := fmt.Sprintf("alias/%d/%d/%d", i, codes[ci], ai)
+				r.Case(id, func() *core.Fail {
+					if err := hashing.IsValidModelMultihash([]byte(v.text), a); err == nil {
+						return &core.Fail{Key: id, What: fmt.Sprintf("value %s validates against %q, which is not its hash %q (another spelling decoding to the same bytes)", v.text, a, h),
+							Detail: map[string]any{"value": v.text, "hash": h, "alias": a}}
+					}
+					return nil
+				})
+				r.Class("alias")
+			}
+		}
+	}
 	// unknown-to-the-table code with consistent structure: observed, not judged for GetMultihashCode;
 	// it must still never validate nor pass the algorithm test for supported algorithms.
 	unk := mh.Enc(mh.Raw(0x7777, make([]byte, 32)))
@@ -261,4 +291,5 @@ func Run(r *core.Run) {
 	r.Require("equal-different-text", 50)
 	r.Require("unequal", 1000)
 	r.Require("malformed", 500)
+	r.Require("alias", 500)
 }
